@@ -16,11 +16,13 @@ pub open spec fn same(a: PolicySet, b: PolicySet) -> bool {
 /// the reverse index is determined by the other two maps (so whole-view postconditions may speak about templates and links only)
 pub open spec fn index_of(ps: PolicySet, t: PolicyID) -> SSet<PolicyID> { ps.template_to_links_map.view()[t].view() }
 
-/// what the callers of PolicySet::add guarantee about id collisions (cedar_policy::PolicySet::add only passes static policies):
+/// what the callers of PolicySet::add guarantee about id collisions when they pass a template-linked policy (nothing is required for a
+/// static policy; cedar_policy::PolicySet::add only passes static policies):
 /// a static-shaped policy does not reuse the id of a plain template with an equal body (a different body is rejected by add itself), and a linked policy neither links to a static policy's
 /// template nor takes the id of a template
 pub open spec fn add_pre(ps: PolicySet, p: Policy) -> bool {
     let T = ps.templates.view(); let L = ps.links.view();
-    if tid(p) == p.spec_id() { T.contains_key(p.spec_id()) ==> L.contains_key(p.spec_id()) || *T[p.spec_id()] != p.spec_template() }
+    if p.spec_is_static() { true }
+    else if tid(p) == p.spec_id() { T.contains_key(p.spec_id()) ==> L.contains_key(p.spec_id()) || *T[p.spec_id()] != p.spec_template() }
     else { !L.contains_key(tid(p)) && !T.contains_key(p.spec_id()) }
 }
